@@ -354,3 +354,19 @@ Fixpoint dealias_run (s : sstate) (t : nat) (ops : list op) : list op :=
   | [] => []
   | o :: r => dealias s t o ++ dealias_run (snd (spec_step s o)) t r
   end.
+
+(* an example history for the non-vacuity Examples of Properties_C04.v: 
+   self-assignment, append(a[0]) at the growth boundary, resize(n, a[1]), List::append(self),
+   a MultiMap copy, Map::insert(self), HashSet::remove(self) *)
+Definition example_history : list op :=
+  [ONew 0 KArray; OIns 0 PBack (AVal 0) (AVal 5); OIns 0 PBack (AVal 0) (AVal 6); OIns 0 PBack (AVal 0) (AVal 7);
+   OIns 0 PBack (AVal 0) (AValOf 0 0); OResize 0 9 (AValOf 0 1); OAssign 0 0; OAddAll 0 PBack 0; ORemAt 0 2;
+   OCopyNew 1 0; ODel 0; ODel 1;
+   ONew 0 KList; OIns 0 PBack (AVal 0) (AVal 1); OIns 0 PFront (AVal 0) (AValOf 0 0); OAddAll 0 PBack 0;
+   OAddAll 0 PFront 0; OAssign 0 0; ODel 0;
+   ONew 0 KMultiMap; OIns 0 PBack (AVal 3) (AVal 1); OIns 0 PBack (AVal 3) (AValOf 0 0); OCopyNew 1 0;
+   OAssign 1 1; OAssign 0 1; ODel 0; ODel 1;
+   ONew 0 KMap; OIns 0 PBack (AVal 2) (AVal 1); OIns 0 PBack (AKey 0 0) (AVal 9); OAddAll 0 PBack 0; OAssign 0 0;
+   ONew 1 KHashSet; OIns 1 PBack (AVal 4) (AVal 0); OIns 1 PFront (AVal 5) (AVal 0); ORemAll 1 1; OAssign 1 1;
+   ONew 2 KPoolMap; OIns 2 PBack (AVal 1) (AVal 0); ORemKey 2 (AKey 2 0)].
+
